@@ -155,6 +155,10 @@ func isCallee(name string) func(ssa.Instruction) bool {
 	switch name {
 	case "AddLocVar":
 		return callTo("AddLocVar", "ScopeInfo", commonPkg)
+	case "enterScope":
+		// Analysis.enterScope is the one-liner a.curFunc.EnterScope(): either form opens the scope level
+		wrapped, direct := callTo("enterScope", "Analysis", analysisPkg), callTo("EnterScope", "FuncInfo", commonPkg)
+		return func(i ssa.Instruction) bool { return wrapped(i) || direct(i) }
 	default:
 		return callTo(name, "Analysis", analysisPkg)
 	}
@@ -662,30 +666,65 @@ var ruleComplDeclBefore = &Rule{
 					n++
 					cnt++
 					key := fmt.Sprintf("COMPL:%s#%d", f.Name(), cnt)
-					pc := apath(cand, 0)
-					pl := strings.TrimPrefix(apath(locParam, 0), "*")
-					okG := false
-					for d := b; d != nil && !okG; d = d.Idom() {
-						iff, ok := d.Instrs[len(d.Instrs)-1].(*ssa.If)
-						if !ok || d == b {
-							continue
+					guardOK := func(b0 *ssa.BasicBlock, pc, pl string) bool {
+						for d := b0; d != nil; d = d.Idom() {
+							iff, ok := d.Instrs[len(d.Instrs)-1].(*ssa.If)
+							if !ok || d == b0 {
+								continue
+							}
+							bo, ok := iff.Cond.(*ssa.BinOp)
+							if !ok {
+								continue
+							}
+							switch bo.Op {
+							case token.LSS, token.GTR, token.LEQ, token.GEQ:
+							default:
+								continue
+							}
+							x, y := apath(bo.X, 0), apath(bo.Y, 0)
+							isCand := func(s string) bool {
+								return strings.Contains(s, strings.TrimPrefix(pc, "*")) && strings.HasSuffix(s, ".Loc.StartLine")
+							}
+							isCur := func(s string) bool { return strings.Contains(s, pl) && strings.HasSuffix(s, ".StartLine") && !strings.Contains(s, ".Loc.") }
+							if (isCand(x) && isCur(y)) || (isCand(y) && isCur(x)) {
+								return true
+							}
 						}
-						bo, ok := iff.Cond.(*ssa.BinOp)
-						if !ok {
-							continue
-						}
-						switch bo.Op {
-						case token.LSS, token.GTR, token.LEQ, token.GEQ:
-						default:
-							continue
-						}
-						x, y := apath(bo.X, 0), apath(bo.Y, 0)
-						isCand := func(s string) bool {
-							return strings.Contains(s, strings.TrimPrefix(pc, "*")) && strings.HasSuffix(s, ".Loc.StartLine")
-						}
-						isCur := func(s string) bool { return strings.Contains(s, pl) && strings.HasSuffix(s, ".StartLine") && !strings.Contains(s, ".Loc.") }
-						if (isCand(x) && isCur(y)) || (isCand(y) && isCur(x)) {
-							okG = true
+						return false
+					}
+					okG := guardOK(b, apath(cand, 0), strings.TrimPrefix(apath(locParam, 0), "*"))
+					if !okG {
+						// the candidate is chosen by a private helper that is given the cursor location
+						// (findLastVarStartedBefore(list, loc)): every candidate it returns is position-filtered there
+						if ex, ok := cand.(*ssa.Extract); ok {
+							if hc, ok := ex.Tuple.(*ssa.Call); ok {
+								if h := hc.Call.StaticCallee(); h != nil && h.Blocks != nil && c.IsModFn(h) {
+									var hLoc *ssa.Parameter
+									for i, a := range hc.Call.Args {
+										if a == ssa.Value(locParam) && i < len(h.Params) {
+											hLoc = h.Params[i]
+										}
+									}
+									if hLoc != nil {
+										all, nRet := true, 0
+										for _, hb := range h.Blocks {
+											ret, ok := hb.Instrs[len(hb.Instrs)-1].(*ssa.Return)
+											if !ok || ex.Index >= len(ret.Results) {
+												continue
+											}
+											rv := ret.Results[ex.Index]
+											if k, ok := rv.(*ssa.Const); ok && k.IsNil() {
+												continue
+											}
+											nRet++
+											if !guardOK(hb, apath(rv, 0), strings.TrimPrefix(apath(hLoc, 0), "*")) {
+												all = false
+											}
+										}
+										okG = all && nRet > 0
+									}
+								}
+							}
 						}
 					}
 					if okG {
